@@ -81,54 +81,77 @@ Definition held_by (nl : nat) (w : world) (t : tid) : list lock :=
    step, and the order of the releases inside it is invisible to the other threads.  [lr]: the last scheduling-point
    operation this thread performed was a release.  With ra = false this is the plain semantics. *)
 Definition is_rel_op (o : op) : bool := match o with ORaw (OUnlock | OUnlockSh) _ => true | _ => false end.
+Definition stops_here (ra lr : bool) (o : op) : bool := is_sched o && negb (ra && lr && is_rel_op o).
 
-Fixpoint drain_g (ra lr : bool) (fuel : nat) (e : env) (t : tid) (th : thr) (w : world) (evs : list bev) : thr * world * list bev :=
-  match fuel with
-  | 0 => (th, w, evs)
-  | S f =>
-      if th_over th then (th, w, evs) else
-      match th_cur th with
-      | None =>
-          match th_rest th with
-          | [] => (mkthr None [] (th_loc th) true true, w, evs)
-          | o :: r =>
-              match api_prog e (th_loc th) o with
-              | None => drain_g ra lr f e t (mkthr None r (th_loc th) true false) w
-                              (BRet t RSkipped (negb (w_keyf w t)) :: evs)
-              | Some p => drain_g ra lr f e t (mkthr (Some (o, p)) r (th_loc th) true false) w evs
-              end
+(* run on, without waiting, until the next scheduling point is reached or the program ends: a structural recursion
+   (the big-step interpreter cut at the first operation that is a scheduling point) *)
+Inductive ares := AFin (out : outcome) (w : world) | APark (p : prog) (w : world).
+
+Fixpoint adv (ra lr : bool) (t : tid) (p : prog) (w : world) : ares :=
+  match p with
+  | Ret v => AFin (ODone v) w
+  | Throw => AFin OPanic w
+  | Abort => AFin OAbort w
+  | Fuel => AFin OFuel w
+  | Op o k =>
+      if stops_here ra lr o then APark p w
+      else match do_op nopw t o w with
+           | RDone v w' => adv ra lr t (k v) w'
+           | RPanic w' => AFin OPanic w'
+           | RBlock w' => APark p w          (* not reached: only scheduling points can wait *)
+           end
+  | Bind m k =>
+      match adv ra lr t m w with
+      | AFin (ODone v) w' => adv ra lr t (k v) w'
+      | AFin out w' => AFin out w'
+      | APark m' w' => APark (Bind m' k) w'
+      end
+  | Catch b h =>
+      match adv ra lr t b w with
+      | AFin OPanic w' =>
+          match adv ra lr t h w' with
+          | AFin (ODone _) w'' => AFin OPanic w''
+          | AFin out w'' => AFin out w''
+          | APark h' w'' => APark (h' ;; Throw) w''
           end
-      | Some (o, p) =>
-          let finish (out : outcome) :=
-            let (lc', rc) := api_fin e (th_loc th) o out in
-            drain_g ra lr f e t (mkthr None (th_rest th) lc' true (stops rc)) w
-                  (BRet t rc (negb (w_keyf w t)) :: evs) in
-          match nextop p with
-          | NRet v => finish (ODone v)
-          | NThrow => finish OPanic
-          | NAbort => finish OAbort
-          | NFuel => finish OFuel
-          | NOp op =>
-              if is_sched op then
-                if ra && lr && is_rel_op op then
-                  match step nopw t p (clear_trace w) with
-                  | SStep p' w' => drain_g ra lr f e t (mkthr (Some (o, p')) (th_rest th) (th_loc th) true false) w'
-                                           (wrap (w_trace w') ++ evs)
-                  | _ => (th, w, evs)
-                  end
-                else (th, w, evs)
-              else match step nopw t p (clear_trace w) with
-                   | SStep p' w' => drain_g ra lr f e t (mkthr (Some (o, p')) (th_rest th) (th_loc th) true false) w'
-                                          (wrap (w_trace w') ++ evs)
-                   | _ => (th, w, evs)       (* unreachable: nextop said an operation comes next *)
-                   end
+      | AFin out w' => AFin out w'
+      | APark b' w' => APark (Catch b' h) w'
+      end
+  end.
+
+(* the calls that follow: each is started and run on; the thread stops at the first scheduling point, at the end of
+   its program, or at a stop code *)
+Fixpoint drain_calls (ra lr : bool) (e : env) (t : tid) (loc : tlocal) (rest : list apiop) (w : world) (evs : list bev)
+  : thr * world * list bev :=
+  match rest with
+  | [] => (mkthr None [] loc true true, w, evs)
+  | o :: r =>
+      match api_prog e loc o with
+      | None => drain_calls ra lr e t loc r w (BRet t RSkipped (negb (w_keyf w t)) :: evs)
+      | Some p =>
+          match adv ra lr t p (clear_trace w) with
+          | APark p' w' => (mkthr (Some (o, p')) r loc true false, w', wrap (w_trace w') ++ evs)
+          | AFin out w' =>
+              let (lc', rc) := api_fin e loc o out in
+              let evs' := BRet t rc (negb (w_keyf w' t)) :: wrap (w_trace w') ++ evs in
+              if stops rc then (mkthr None r lc' true true, w', evs')
+              else drain_calls ra lr e t lc' r w' evs'
           end
       end
   end.
 
-Definition drain := drain_g false false.
+(* the running call [o] with remaining program [p]: run on, then the calls that follow *)
+Definition settle (ra lr : bool) (e : env) (t : tid) (o : apiop) (loc : tlocal) (rest : list apiop) (p : prog)
+           (w : world) (evs : list bev) : thr * world * list bev :=
+  match adv ra lr t p (clear_trace w) with
+  | APark p' w' => (mkthr (Some (o, p')) rest loc true false, w', wrap (w_trace w') ++ evs)
+  | AFin out w' =>
+      let (lc', rc) := api_fin e loc o out in
+      let evs' := BRet t rc (negb (w_keyf w' t)) :: wrap (w_trace w') ++ evs in
+      if stops rc then (mkthr None rest lc' true true, w', evs')
+      else drain_calls ra lr e t lc' rest w' evs'
+  end.
 
-Definition DRAIN_FUEL := 4000.
 
 (* a thread found waiting (parked on a blocking acquisition that cannot be granted now) records, once per
    wait, what it holds *)
@@ -155,7 +178,7 @@ Fixpoint note_waits (wp : bool) (nl : nat) (s : bstate) (ts : list tid) : bstate
 Definition turn_g (ra : bool) (wp : bool) (e : env) (nl : nat) (s : bstate) (t : tid) : bstate :=
   let th := get_thr (b_thr s) t in
   if negb (th_started th) then
-    let '(th', w', evs') := drain_g ra false DRAIN_FUEL e t (mkthr (th_cur th) (th_rest th) (th_loc th) true false) (b_w s) (b_evs s) in
+    let '(th', w', evs') := drain_calls ra false e t (th_loc th) (th_rest th) (b_w s) (b_evs s) in
     mkb w' (set_nth (b_thr s) t th') evs' (set_nth (b_noted s) t false)
   else
     match th_cur th with
@@ -163,8 +186,7 @@ Definition turn_g (ra : bool) (wp : bool) (e : env) (nl : nat) (s : bstate) (t :
         let lr := match parked th with Some op => is_rel_op op | None => false end in
         match step (pendw wp (b_thr s) t) t p (clear_trace (b_w s)) with
         | SStep p' w1 =>
-            let '(th', w', evs') := drain_g ra lr DRAIN_FUEL e t (mkthr (Some (o, p')) (th_rest th) (th_loc th) true false) w1
-                                          (wrap (w_trace w1) ++ b_evs s) in
+            let '(th', w', evs') := settle ra lr e t o (th_loc th) (th_rest th) p' w1 (wrap (w_trace w1) ++ b_evs s) in
             mkb w' (set_nth (b_thr s) t th') evs' (set_nth (b_noted s) t false)
         | _ => s
         end
